@@ -358,6 +358,9 @@ func (x *Explorer) atReturn(st *State, f *Frame, r *ssa.Return, vals []Val) {
 	}
 	for i, v := range vals {
 		if i < len(f.contract.Results) && f.contract.Fresh[f.contract.Results[i]] {
+			if sl, ok := v.(VSlice); ok {
+				x.emit(st, "fresh", f.contract.Results[i], site, Or(Eq(sl.Arr, IntLit(0)), And(Ge(sl.Arr, IntLit(refBase)), Lt(sl.Arr, IntLit(1000000000)))), filepath.Base(f.contract.File))
+			}
 			if p, ok := v.(VPtr); ok && p.Alloc == nil {
 				x.emit(st, "fresh", f.contract.Results[i], site, Or(Eq(p.Ref, IntLit(0)), And(Ge(p.Ref, IntLit(refBase)), Lt(p.Ref, IntLit(1000000000)))), filepath.Base(f.contract.File))
 			}
@@ -394,6 +397,7 @@ func (x *Explorer) applyContract(st *State, f *Frame, con *Contract, allArgs []V
 		}
 	}
 	env.oldVars = env.vars
+	env.callK = int64(refBase + x.nextRef)
 	// preconditions
 	for _, cl := range con.Requires {
 		env.goal = true
@@ -422,7 +426,9 @@ func (x *Explorer) applyContract(st *State, f *Frame, con *Contract, allArgs []V
 	vals := make([]Val, sig.Results().Len())
 	for i := range vals {
 		hint := fmt.Sprintf("r%d_%s", i, con.FuncName)
+		x.freshSliceResult = i < len(con.Results) && con.Fresh[con.Results[i]]
 		vals[i] = x.freshResult(st, sig.Results().At(i).Type(), hint)
+		x.freshSliceResult = false
 		if i < len(con.Results) && con.Fresh[con.Results[i]] {
 			if pt, ok := sig.Results().At(i).Type().Underlying().(*types.Pointer); ok {
 				// a newly allocated object (or nil): distinct from everything that exists
@@ -444,6 +450,13 @@ func (x *Explorer) applyContract(st *State, f *Frame, con *Contract, allArgs []V
 		env.goal = false
 		st.assume(env.evalBool(cl.Expr))
 	}
+	for _, cl := range con.Assumes {
+		env.goal = false
+		st.assume(env.evalBool(cl.Expr))
+		if !st.dry {
+			x.assumed["clause ["+cl.Label+"] of "+con.Key+" is assumed, not proved: "+cl.Text]++
+		}
+	}
 	x.observe(st, f, con.FuncName, site, allArgs, vals)
 	if !st.dry && !st.dead {
 		// vacuity guard: the assumed clauses must leave this path (or another one) alive
@@ -463,7 +476,17 @@ func (x *Explorer) freshResult(st *State, t types.Type, hint string) Val {
 			fs := x.freshSlice(st, s.Elem(), hint)
 			// may also be nil
 			isNil := st.freshSym(hint+"_nil", SBool)
-			return VSlice{Arr: Ite(isNil, IntLit(0), fs.Arr), Off: IntLit(0), Len: Ite(isNil, IntLit(0), fs.Len), Cap: Ite(isNil, IntLit(0), fs.Cap), Elem: fs.Elem}
+			arr, off := fs.Arr, IntLit(0)
+			if !x.freshSliceResult {
+				// nothing says the result is newly allocated: it may be (part of) an array that
+				// already exists - an argument, a field - so later writes there show through
+				alias := st.freshSym(hint+"_alias", SBool)
+				old := st.freshInt(hint + "_aliased")
+				ooff := st.freshInt(hint + "_aliasoff")
+				st.addFact(And(Gt(old, IntLit(0)), st.refBound(old), Ge(ooff, IntLit(0)), Lt(ooff, Pow2(62))))
+				arr, off = Ite(alias, old, fs.Arr), Ite(alias, ooff, IntLit(0))
+			}
+			return VSlice{Arr: Ite(isNil, IntLit(0), arr), Off: Ite(isNil, IntLit(0), off), Len: Ite(isNil, IntLit(0), fs.Len), Cap: Ite(isNil, IntLit(0), fs.Cap), Elem: fs.Elem}
 		}
 	}
 	return st.freshVal(t, hint)
@@ -500,6 +523,12 @@ func (x *Explorer) observe(st *State, f *Frame, callee, site string, args, resul
 		st.ghosts[o.Name+".seq"] = VInt{T: IntLit(int64(st.obsSeq))}
 		for i, a := range args {
 			st.ghosts[fmt.Sprintf("%s.arg%d", o.Name, i)] = a
+			// byte strings: the contents at the time of the call (name.argKval)
+			if sl, ok := a.(VSlice); ok {
+				if b, isB := sl.Elem.Underlying().(*types.Basic); isB && (b.Kind() == types.Uint8 || b.Kind() == types.Byte) {
+					st.ghosts[fmt.Sprintf("%s.arg%dval", o.Name, i)] = VInt{T: st.bval(sl)}
+				}
+			}
 		}
 		for i, r := range results {
 			st.ghosts[fmt.Sprintf("%s.res%d", o.Name, i)] = r
